@@ -178,5 +178,314 @@ theorem checkArgs_skipc (e : VEnv) : ∀ (a : Value) (as : Values) (live acc : L
     rw [checkValue_skipc e a]
 end
 
+/-! ### the walker moves forward -/
+
+mutual
+theorem checkStmt_pc_le (e : VEnv) : ∀ (s : Stmt) (w w' : Walk), checkStmt e s w = some w' →
+    w.pc ≤ w'.pc
+  | .assign x v pos, w, w', h => by
+    obtain ⟨rx, pc1, h1, _, rfl⟩ := checkStmt_assign_inv h
+    exact Nat.le_of_lt (checkValue_lt h1)
+  | .mark m pos, w, w', h => by
+    rw [checkStmt_mark_inv h]; exact Nat.le_refl _
+  | .loop id x body pos, w, w', h => by
+    obtain ⟨ctr, rx, offE, offL, w1, _, _, _, _, hb, _, _, _, _, rfl⟩ := checkStmt_loop_inv h
+    have := checkStmts_pc_le e body _ _ hb
+    have l1 := lt_next e w.pc
+    have l2 := lt_next e (e.next w.pc)
+    have l3 := le_skipc e.code (e.next w1.pc)
+    have l4 := lt_next e w1.pc
+    show w.pc ≤ skipc e.code (e.next w1.pc) + 1
+    have : e.next (e.next w.pc) ≤ w1.pc := this
+    omega
+  | .while_ x body pos, w, w', h => by
+    obtain ⟨rx, tmp, offE, offL, w1, _, _, _, _, hb, _, _, _, rfl⟩ := checkStmt_while_inv h
+    have := checkStmts_pc_le e body _ _ hb
+    have l1 := lt_next e w.pc
+    have l2 := lt_next e (e.next w.pc)
+    have l3 := le_skipc e.code w1.pc
+    show w.pc ≤ skipc e.code w1.pc + 1
+    have : e.next (e.next w.pc) ≤ w1.pc := this
+    omega
+  | .goto m pos, w, w', h => by
+    obtain ⟨off, _, rfl⟩ := checkStmt_goto_inv h
+    exact Nat.le_of_lt (lt_next e w.pc)
+  | .ifGoto x cst m pos, w, w', h => by
+    obtain ⟨rx, t1, t2, t0, off, _, _, _, _, _, _, _, _, _, _, rfl⟩ := checkStmt_ifGoto_inv h
+    have l1 := lt_next e w.pc
+    have l2 := lt_next e (e.next w.pc)
+    have l3 := lt_next e (e.next (e.next w.pc))
+    have l4 := lt_next e (e.next (e.next (e.next w.pc)))
+    show w.pc ≤ e.next (e.next (e.next (e.next w.pc)))
+    omega
+  | .stop pos, w, w', h => by
+    obtain ⟨_, rfl⟩ := checkStmt_stop_inv h
+    exact Nat.le_of_lt (lt_next e w.pc)
+theorem checkStmts_pc_le (e : VEnv) : ∀ (ss : Stmts) (w w' : Walk), checkStmts e ss w = some w' →
+    w.pc ≤ w'.pc
+  | .nil, w, w', h => by rw [checkStmts_nil_inv h]; exact Nat.le_refl _
+  | .cons s ss, w, w', h => by
+    obtain ⟨w1, h1, h2⟩ := checkStmts_cons_inv h
+    exact Nat.le_trans (checkStmt_pc_le e s _ _ h1) (checkStmts_pc_le e ss _ _ h2)
+end
+
+/-! ### inversion of the site walk -/
+
+def sameLine (prev : Prev) (s : Stmt) : Bool :=
+  match prev with | some (q, _) => q == s.pos | none => false
+def afterMk (prev : Prev) : Bool :=
+  match prev with | some (_, m) => m | none => false
+def hereOf (w : Walk) (k : Nat) (prev : Prev) (s : Stmt) : List ESite :=
+  if sameLine prev s then [] else [(w.pc + k, s.pos, markName s)]
+def kOf (k : Nat) (prev : Prev) (s : Stmt) : Nat := if sameLine prev s then k else k + 1
+
+def isSimple : Stmt → Bool
+  | .assign _ _ _ => true
+  | .goto _ _ => true
+  | .ifGoto _ _ _ _ => true
+  | .stop _ => true
+  | _ => false
+
+theorem sitesStmt_unfold (e : VEnv) (s : Stmt) (w : Walk) (k : Nat) (prev : Prev) :
+    sitesStmt e s w k prev =
+      if (sameLine prev s && (!afterMk prev || isMark s)) = true then none else
+      match s with
+      | .loop _ _ body _ =>
+        (match sitesStmts e body { w with pc := w.pc + kOf k prev s + 2 } 0 (some (s.pos, false)),
+            checkStmt e s w with
+         | some (lb, _, _, _), some w' =>
+           if loopJumpsExact e.code (w.pc + kOf k prev s + 1) (w.pc + kOf k prev s + 1) w'.pc then
+             some (hereOf w k prev s ++ lb, w', 0, none) else none
+         | _, _ => none)
+      | .while_ _ body _ =>
+        (match sitesStmts e body { w with pc := w.pc + kOf k prev s + 2 } 0 (some (s.pos, false)),
+            checkStmt e s w with
+         | some (lb, _, _, _), some w' =>
+           if loopJumpsExact e.code (w.pc + kOf k prev s + 1) (w.pc + kOf k prev s) w'.pc then
+             some (hereOf w k prev s ++ lb, w', 0, none) else none
+         | _, _ => none)
+      | .mark _ _ =>
+        (match checkStmt e s w with
+         | some w' => some (hereOf w k prev s, w', kOf k prev s, some (s.pos, true))
+         | none => none)
+      | _ =>
+        (match checkStmt e s w with
+         | some w' => some (hereOf w k prev s, w', 0, some (s.pos, false))
+         | none => none) := by
+  rw [sitesStmt.eq_def]
+  rfl
+
+theorem sitesStmt_simple_inv {e : VEnv} {s : Stmt} (hs : isSimple s = true) {w : Walk} {k : Nat}
+    {prev : Prev} {l : List ESite} {w1 : Walk} {k1 : Nat} {prev1 : Prev}
+    (h : sitesStmt e s w k prev = some (l, w1, k1, prev1)) :
+    (sameLine prev s && (!afterMk prev || isMark s)) = false ∧ checkStmt e s w = some w1 ∧
+      l = hereOf w k prev s ∧ k1 = 0 ∧ prev1 = some (s.pos, false) := by
+  rw [sitesStmt_unfold] at h
+  by_cases hc : (sameLine prev s && (!afterMk prev || isMark s)) = true
+  · rw [if_pos hc] at h; cases h
+  · rw [if_neg hc] at h
+    cases s <;> simp only [isSimple] at hs <;> try (cases hs)
+    all_goals
+      simp only [] at h
+      cases hchk : checkStmt e _ w with
+      | none => rw [hchk] at h; cases h
+      | some w' =>
+        rw [hchk] at h
+        cases h
+        exact ⟨Bool.eq_false_iff.2 hc, rfl, rfl, rfl, rfl⟩
+
+theorem sitesStmt_mark_inv {e : VEnv} {m : Name} {q : Pos} {w : Walk} {k : Nat}
+    {prev : Prev} {l : List ESite} {w1 : Walk} {k1 : Nat} {prev1 : Prev}
+    (h : sitesStmt e (.mark m q) w k prev = some (l, w1, k1, prev1)) :
+    sameLine prev (.mark m q) = false ∧ checkStmt e (.mark m q) w = some w1 ∧
+      l = [(w.pc + k, q, some m)] ∧ k1 = k + 1 ∧ prev1 = some (q, true) := by
+  rw [sitesStmt_unfold] at h
+  by_cases hc : (sameLine prev (.mark m q) && (!afterMk prev || isMark (.mark m q))) = true
+  · rw [if_pos hc] at h; cases h
+  · rw [if_neg hc] at h
+    have hsl : sameLine prev (.mark m q) = false := by
+      simpa [isMark] using Bool.eq_false_iff.2 hc
+    simp only [] at h
+    cases hchk : checkStmt e (.mark m q) w with
+    | none => rw [hchk] at h; cases h
+    | some w' =>
+      rw [hchk] at h
+      cases h
+      refine ⟨hsl, rfl, ?_, ?_, rfl⟩
+      · unfold hereOf
+        rw [hsl]
+        rfl
+      · unfold kOf
+        rw [hsl]
+        rfl
+
+theorem sitesStmt_loop_inv {e : VEnv} {id : Nat} {x : Name} {body : Stmts} {q : Pos} {w : Walk}
+    {k : Nat} {prev : Prev} {l : List ESite} {w1 : Walk} {k1 : Nat} {prev1 : Prev}
+    (h : sitesStmt e (.loop id x body q) w k prev = some (l, w1, k1, prev1)) :
+    (sameLine prev (.loop id x body q) && !afterMk prev) = false ∧
+    ∃ lb wb kb pb, sitesStmts e body { w with pc := w.pc + kOf k prev (.loop id x body q) + 2 } 0
+        (some (q, false)) = some (lb, wb, kb, pb) ∧
+      checkStmt e (.loop id x body q) w = some w1 ∧
+      loopJumpsExact e.code (w.pc + kOf k prev (.loop id x body q) + 1)
+        (w.pc + kOf k prev (.loop id x body q) + 1) w1.pc = true ∧
+      l = hereOf w k prev (.loop id x body q) ++ lb ∧ k1 = 0 ∧ prev1 = none := by
+  rw [sitesStmt_unfold] at h
+  by_cases hc : (sameLine prev (.loop id x body q) && (!afterMk prev || isMark (.loop id x body q)))
+      = true
+  · rw [if_pos hc] at h; cases h
+  · rw [if_neg hc] at h
+    simp only [] at h
+    split at h
+    · rename_i lb wb kb pb w' hb hchk
+      split at h
+      · rename_i hj
+        cases h
+        exact ⟨by simpa [isMark] using Bool.eq_false_iff.2 hc, lb, wb, kb, pb, hb, hchk, hj, rfl, rfl,
+          rfl⟩
+      · cases h
+    · cases h
+
+theorem sitesStmt_while_inv {e : VEnv} {x : Name} {body : Stmts} {q : Pos} {w : Walk}
+    {k : Nat} {prev : Prev} {l : List ESite} {w1 : Walk} {k1 : Nat} {prev1 : Prev}
+    (h : sitesStmt e (.while_ x body q) w k prev = some (l, w1, k1, prev1)) :
+    (sameLine prev (.while_ x body q) && !afterMk prev) = false ∧
+    ∃ lb wb kb pb, sitesStmts e body { w with pc := w.pc + kOf k prev (.while_ x body q) + 2 } 0
+        (some (q, false)) = some (lb, wb, kb, pb) ∧
+      checkStmt e (.while_ x body q) w = some w1 ∧
+      loopJumpsExact e.code (w.pc + kOf k prev (.while_ x body q) + 1)
+        (w.pc + kOf k prev (.while_ x body q)) w1.pc = true ∧
+      l = hereOf w k prev (.while_ x body q) ++ lb ∧ k1 = 0 ∧ prev1 = none := by
+  rw [sitesStmt_unfold] at h
+  by_cases hc : (sameLine prev (.while_ x body q) && (!afterMk prev || isMark (.while_ x body q)))
+      = true
+  · rw [if_pos hc] at h; cases h
+  · rw [if_neg hc] at h
+    simp only [] at h
+    split at h
+    · rename_i lb wb kb pb w' hb hchk
+      split at h
+      · rename_i hj
+        cases h
+        exact ⟨by simpa [isMark] using Bool.eq_false_iff.2 hc, lb, wb, kb, pb, hb, hchk, hj, rfl, rfl,
+          rfl⟩
+      · cases h
+    · cases h
+
+theorem sitesStmts_cons_inv {e : VEnv} {s : Stmt} {ss : Stmts} {w : Walk} {k : Nat} {prev : Prev}
+    {l : List ESite} {w2 : Walk} {k2 : Nat} {prev2 : Prev}
+    (h : sitesStmts e (.cons s ss) w k prev = some (l, w2, k2, prev2)) :
+    ∃ l1 w1 k1 prev1 l2, sitesStmt e s w k prev = some (l1, w1, k1, prev1) ∧
+      sitesStmts e ss w1 k1 prev1 = some (l2, w2, k2, prev2) ∧ l = l1 ++ l2 := by
+  rw [sitesStmts.eq_def] at h
+  simp only [] at h
+  split at h
+  · rename_i l1 w1 k1 prev1 h1
+    split at h
+    · rename_i l2 w2' k2' prev2' h2
+      cases h
+      exact ⟨l1, w1, k1, prev1, l2, h1, h2, rfl⟩
+    · cases h
+  · cases h
+
+theorem sitesStmts_nil_inv {e : VEnv} {w : Walk} {k : Nat} {prev : Prev}
+    {l : List ESite} {w2 : Walk} {k2 : Nat} {prev2 : Prev}
+    (h : sitesStmts e .nil w k prev = some (l, w2, k2, prev2)) :
+    l = [] ∧ w2 = w ∧ k2 = k ∧ prev2 = prev := by
+  rw [sitesStmts.eq_def] at h
+  simp only [] at h
+  cases h
+  exact ⟨rfl, rfl, rfl, rfl⟩
+
+/-! ### the site walk follows the shape walk -/
+
+theorem sitesStmt_walk {e : VEnv} {s : Stmt} {w : Walk} {k : Nat} {prev : Prev} {l : List ESite}
+    {w1 : Walk} {k1 : Nat} {prev1 : Prev} (h : sitesStmt e s w k prev = some (l, w1, k1, prev1)) :
+    checkStmt e s w = some w1 := by
+  cases s with
+  | assign x v pos => exact (sitesStmt_simple_inv rfl h).2.1
+  | goto m pos => exact (sitesStmt_simple_inv rfl h).2.1
+  | ifGoto x cst m pos => exact (sitesStmt_simple_inv rfl h).2.1
+  | stop pos => exact (sitesStmt_simple_inv rfl h).2.1
+  | mark m q => exact (sitesStmt_mark_inv h).2.1
+  | loop id x body q =>
+    obtain ⟨_, lb, wb, kb, pb, _, h2, _⟩ := sitesStmt_loop_inv h
+    exact h2
+  | while_ x body q =>
+    obtain ⟨_, lb, wb, kb, pb, _, h2, _⟩ := sitesStmt_while_inv h
+    exact h2
+
+theorem sitesStmts_walk {e : VEnv} : ∀ {ss : Stmts} {w : Walk} {k : Nat} {prev : Prev}
+    {l : List ESite} {w' : Walk} {k' : Nat} {prev' : Prev},
+    sitesStmts e ss w k prev = some (l, w', k', prev') → checkStmts e ss w = some w'
+  | .nil, w, k, prev, l, w', k', prev', h => by
+    obtain ⟨_, rfl, _, _⟩ := sitesStmts_nil_inv h
+    simp only [checkStmts]
+  | .cons s ss, w, k, prev, l, w', k', prev', h => by
+    obtain ⟨l1, w1, k1, prev1, l2, h1, h2, _⟩ := sitesStmts_cons_inv h
+    simp only [checkStmts, sitesStmt_walk h1]
+    exact sitesStmts_walk h2
+
+/-- every expected site lies at or behind the walker position -/
+theorem hereOf_ge {w : Walk} {k : Nat} {prev : Prev} {s : Stmt} : ∀ x ∈ hereOf w k prev s, w.pc ≤ x.1 := by
+  intro x hx
+  unfold hereOf at hx
+  split at hx
+  · cases hx
+  · rw [List.mem_singleton] at hx
+    subst hx
+    exact Nat.le_add_right _ _
+
+mutual
+theorem sitesStmt_ge {e : VEnv} : ∀ (s : Stmt) {w : Walk} {k : Nat} {prev : Prev} {l : List ESite}
+    {w1 : Walk} {k1 : Nat} {prev1 : Prev}, sitesStmt e s w k prev = some (l, w1, k1, prev1) →
+    ∀ x ∈ l, w.pc ≤ x.1
+  | .assign x v pos, w, k, prev, l, w1, k1, prev1, h => by
+    rw [(sitesStmt_simple_inv rfl h).2.2.1]; exact hereOf_ge
+  | .goto m pos, w, k, prev, l, w1, k1, prev1, h => by
+    rw [(sitesStmt_simple_inv rfl h).2.2.1]; exact hereOf_ge
+  | .ifGoto x cst m pos, w, k, prev, l, w1, k1, prev1, h => by
+    rw [(sitesStmt_simple_inv rfl h).2.2.1]; exact hereOf_ge
+  | .stop pos, w, k, prev, l, w1, k1, prev1, h => by
+    rw [(sitesStmt_simple_inv rfl h).2.2.1]; exact hereOf_ge
+  | .mark m q, w, k, prev, l, w1, k1, prev1, h => by
+    rw [(sitesStmt_mark_inv h).2.2.1]
+    intro x hx
+    rw [List.mem_singleton] at hx
+    subst hx
+    exact Nat.le_add_right _ _
+  | .loop id x body q, w, k, prev, l, w1, k1, prev1, h => by
+    obtain ⟨_, lb, wb, kb, pb, hb, _, _, rfl, _, _⟩ := sitesStmt_loop_inv h
+    intro y hy
+    rcases List.mem_append.1 hy with hy | hy
+    · exact hereOf_ge y hy
+    · have := sitesStmts_ge body hb y hy
+      have e1 : ({ w with pc := w.pc + kOf k prev (.loop id x body q) + 2 } : Walk).pc =
+        w.pc + kOf k prev (.loop id x body q) + 2 := rfl
+      omega
+  | .while_ x body q, w, k, prev, l, w1, k1, prev1, h => by
+    obtain ⟨_, lb, wb, kb, pb, hb, _, _, rfl, _, _⟩ := sitesStmt_while_inv h
+    intro y hy
+    rcases List.mem_append.1 hy with hy | hy
+    · exact hereOf_ge y hy
+    · have := sitesStmts_ge body hb y hy
+      have e1 : ({ w with pc := w.pc + kOf k prev (.while_ x body q) + 2 } : Walk).pc =
+        w.pc + kOf k prev (.while_ x body q) + 2 := rfl
+      omega
+theorem sitesStmts_ge {e : VEnv} : ∀ (ss : Stmts) {w : Walk} {k : Nat} {prev : Prev} {l : List ESite}
+    {w' : Walk} {k' : Nat} {prev' : Prev}, sitesStmts e ss w k prev = some (l, w', k', prev') →
+    ∀ x ∈ l, w.pc ≤ x.1
+  | .nil, w, k, prev, l, w', k', prev', h => by
+    obtain ⟨rfl, _, _, _⟩ := sitesStmts_nil_inv h
+    intro x hx; cases hx
+  | .cons s ss, w, k, prev, l, w', k', prev', h => by
+    obtain ⟨l1, w1, k1, prev1, l2, h1, h2, rfl⟩ := sitesStmts_cons_inv h
+    intro x hx
+    rcases List.mem_append.1 hx with hx | hx
+    · exact sitesStmt_ge s h1 x hx
+    · have := sitesStmts_ge ss h2 x hx
+      have := checkStmt_pc_le e s _ _ (sitesStmt_walk h1)
+      omega
+end
+
 end Sim
 end Theo
